@@ -26,6 +26,7 @@ type Env struct {
 	depth      int
 	iterSeen   func() (string, bool)
 	inOld      bool
+	now        *Heap // the real current heap (local variables are always read from it, also inside old())
 	inQuant    int // >0: evaluating under a quantifier (bound variables may occur in terms, also inside expanded spec functions)
 }
 
@@ -88,6 +89,9 @@ func (e *Env) factState() (*State, func()) {
 }
 
 func (e *Env) resolveNameVal(v Val, h Heap) Val {
+	if e.now != nil {
+		h = *e.now // a local variable has no pre-state: its name denotes its current value
+	}
 	switch a := v.(type) {
 	case nameAddr:
 		fs, commit := e.factState()
@@ -154,6 +158,13 @@ func (e *Env) eval(ex Expr) Val {
 	case *Ident:
 		if v, ok := e.lookup(ex.Name); ok {
 			return e.resolveNameVal(v, e.cur)
+		}
+		if ex.Name == "$range" {
+			// the map being ranged over by the current loop
+			if it := e.currentIter(); it != nil {
+				return TV{it.m, it.mty}
+			}
+			e.errf("$range outside a map range loop")
 		}
 		if ex.Name == "world" {
 			x.reg.declare("|world|", "Int")
@@ -618,6 +629,10 @@ func (e *Env) call(c *CallE) Val {
 		return x.zeroVal(t.Go)
 	case "old":
 		ne := *e
+		if e.now == nil {
+			cur := e.cur
+			ne.now = &cur
+		}
 		ne.cur = e.old
 		ne.inOld = true
 		if e.entryNames != nil {
@@ -1461,8 +1476,10 @@ func autoTrigger(body string, names, decl []string, cov bool) (string, []string,
 		}
 	}
 	if len(full) > 0 {
-		if len(full) > 12 {
-			full = full[:12]
+		// fewest, simplest patterns first: every extra alternative multiplies instantiations
+		sort.SliceStable(full, func(i, j int) bool { return len(full[i][0]) < len(full[j][0]) })
+		if len(full) > 6 {
+			full = full[:6]
 		}
 		return body, names, decl, full
 	}
